@@ -272,6 +272,21 @@ def r4_merge_or_append(ctx):
     fn = ctx.fn(DIP, "DIP.parse")
     loops = [n for n in ast.walk(fn) if isinstance(n, ast.For) and "target.nodes" in norm(n.iter) and n.orelse]
     cands = [l for l in loops if any("modify_value" in norm(x) for x in ast.walk(l))]
+    if len(cands) != 1 and K.lookup_next(fn) is not None and "name == node.name" in K.lookup_next(fn)["test"]:
+        ll = K.lookup_next(fn)
+        full = ("target.nodes", "target.nodes.nodes")
+        if ll["collection"] in full:
+            ctx.holds(DIP, "DIP.parse", "the existing-node lookup covers every node of the target environment", detail=ll["collection"])
+        else:
+            ctx.unrecognised(DIP, "DIP.parse", "the existing-node lookup covers every node of the target environment", f"collection {ll['collection']}")
+        ctx.check(not any("append" in norm(x) for s_ in ll["found"] for x in ast.walk(s_)), DIP, "DIP.parse",
+                  "a node with an existing path is merged into that entry (first match) and not appended", detail=[norm(x)[:60] for x in ll["found"]])
+        app = [norm(x) for x in ll["orelse"] if isinstance(x, ast.Expr)]
+        ctx.check("target.nodes.append(node)" in app, DIP, "DIP.parse", "a node with a new path is appended (first-appearance order)", detail=app)
+        writes = [norm(c) for c in ast.walk(fn) if isinstance(c, ast.Call) and isinstance(c.func, ast.Attribute) and norm(c.func.value) == "target.nodes"
+                  and c.func.attr in ("insert", "sort", "reverse", "prepend", "pop", "remove", "clear", "extend")]
+        ctx.check(not writes, DIP, "DIP.parse", "the parameter list is never reordered or pruned during parsing", detail=writes or None)
+        return
     if len(cands) != 1:
         # lookup through an auxiliary index?
         idx = [n for n in ast.walk(fn) if isinstance(n, ast.If) and isinstance(n.test, ast.Compare) and isinstance(n.test.ops[0], ast.In)
